@@ -84,6 +84,7 @@ pub fn run_grp() {
             let req: Vec<&String> = (0..nopt).rev().filter(|b| mask & (1 << b) != 0).map(|b| &names[nmand + b]).collect();
             let req_src = format!("g impl {}", req.iter().map(|s| s.as_str()).collect::<Vec<_>>().join(" + "));
             let mut row = vec![mask];
+            let (mut with_fr, mut final_fr): (Vec<i64>, Vec<i64>) = (vec![], vec![]);     // field sequences of the structs that cast / into build
             for (ct, pre) in [(cglue_gen::trait_groups::CastType::Cast, "cast"), (cglue_gen::trait_groups::CastType::AsRef, "as_ref"), (cglue_gen::trait_groups::CastType::AsMut, "as_mut"),
                               (cglue_gen::trait_groups::CastType::Into, "into"), (cglue_gen::trait_groups::CastType::OnlyCheck, "check")] {
                 let call = std::panic::catch_unwind(|| syn::parse_str::<cglue_gen::trait_groups::TraitCastGroup>(&req_src).map(|c| c.cast_group(ct).to_string()));
@@ -100,6 +101,7 @@ pub fn run_grp() {
                                 let name: String = body[p + 5..].chars().take_while(|c| c.is_alphanumeric() || *c == '_').collect();
                                 if let Some(s) = get_struct(&name) {
                                     let fr = fields_row(s, &lc);
+                                    if pre == "cast" { with_fr = fr.clone(); } else { final_fr = fr.clone(); }
                                     let mut mm = 0;
                                     if pre == "cast" {
                                         for ch in fr.chunks(3) { if ch[0] == 1 && ch[1] >= nmand as i64 && ch[2] == 0 { mm |= 1 << (ch[1] - nmand as i64); } }
@@ -123,6 +125,7 @@ pub fn run_grp() {
                     }
                 }
             }
+            row.push(-5); row.extend(with_fr); row.push(-6); row.extend(final_fr);
             rows.push(row);
         }
         println!("{} # fails=-", rows.iter().map(|r| r.iter().map(|v| v.to_string()).collect::<Vec<_>>().join(" ")).collect::<Vec<_>>().join(" ; "));
